@@ -35,6 +35,18 @@ class FnErr(Exception):
     """raised by a scenario's mapper function (spec kind X)"""
 
 
+def _falsy(cls):
+    """the same error class with instances that are falsy (an exception object is still an exception)"""
+    return type("Falsy" + cls.__name__, (cls,), {"__bool__": lambda self: False})
+
+
+FALSY_ERRS = {c: _falsy(c) for c in (SrcErr, AuxErr, DlyErr, FnErr)}
+
+
+def make_err(cls, msg, falsy):
+    return (FALSY_ERRS[cls] if falsy else cls)(msg)
+
+
 class Hang(BaseException):
     """the watchdog fired: the real run did not finish"""
 
@@ -223,7 +235,7 @@ class Script:
         return Disposable(undo)
 
 
-def spec_observable(s, clk: Clock, sp: Dict[str, Any], mode: str = "cold"):
+def spec_observable(s, clk: Clock, sp: Dict[str, Any], mode: str = "cold", falsy_err: bool = False):
     """per-element observable for spec [k, t]: first notification of kind k at offset t.
     N: a second element and a completion follow (only the FIRST notification may count)."""
     t = clk.S * sp["t"]
@@ -233,7 +245,7 @@ def spec_observable(s, clk: Clock, sp: Dict[str, Any], mode: str = "cold"):
     elif k == "C":
         ev = [(t, "C", None)]
     elif k == "E":
-        ev = [(t, "E", DlyErr("delay observable failed"))]
+        ev = [(t, "E", make_err(DlyErr, "delay observable failed", falsy_err))]
     else:
         ev = []
     return Script(s, clk, ev, mode)
@@ -263,8 +275,8 @@ def build_operator(scn, s, clk: Clock, V, cfg, made):
             for pos, v in enumerate(V["src"]):
                 if same(v, x) and pos < len(table):
                     if table[pos]["k"] == "X":
-                        raise FnErr("mapper failed")
-                    sc = spec_observable(s, clk, table[pos], cfg.get("specmode", "cold"))
+                        raise make_err(FnErr, "mapper failed", cfg.get("errprofile") == "falsy")
+                    sc = spec_observable(s, clk, table[pos], cfg.get("specmode", "cold"), cfg.get("errprofile") == "falsy")
                     made.setdefault(tag, []).append((pos + 1, sc))
                     return sc.obs
             raise AssertionError(f"mapper called with a value the source never emitted: {x!r}")
@@ -291,7 +303,7 @@ def build_operator(scn, s, clk: Clock, V, cfg, made):
     if op == "delay_with_mapper":
         return ops.delay_with_mapper(mapper_for("dl"))
     if op == "delay_with_mapper_sub":
-        first = spec_observable(s, clk, par["f"], cfg.get("specmode", "cold"))
+        first = spec_observable(s, clk, par["f"], cfg.get("specmode", "cold"), cfg.get("errprofile") == "falsy")
         made["first"] = first
         return ops.delay_with_mapper(first.obs, mapper_for("dl"))
     if op == "timestamp":
@@ -333,7 +345,7 @@ def build_operator(scn, s, clk: Clock, V, cfg, made):
     if op == "timeout_abs_other":
         return ops.timeout(absd(), fallback(), **kw)
     if op in ("timeout_with_mapper", "timeout_with_mapper_other"):
-        first = spec_observable(s, clk, par["f"], cfg.get("specmode", "cold"))
+        first = spec_observable(s, clk, par["f"], cfg.get("specmode", "cold"), cfg.get("errprofile") == "falsy")
         made["first"] = first
         return ops.timeout_with_mapper(first.obs, mapper_for("to"), fallback() if op.endswith("_other") else None)
     raise KeyError(op)
@@ -355,7 +367,8 @@ def run_scenario(scn: Dict[str, Any], cfg: Dict[str, Any]) -> Dict[str, Any]:
     S = clk.S
     s = clk.make()
     src_vals, fb_vals = make_vals(cfg.get("profile", "plain"), cfg.get("salt", 0))
-    V = {"src": src_vals, "fb": fb_vals, "src_err": SrcErr("source failed"), "aux_err": AuxErr("aux failed")}
+    fe = cfg.get("errprofile") == "falsy"
+    V = {"src": src_vals, "fb": fb_vals, "src_err": make_err(SrcErr, "source failed", fe), "aux_err": make_err(AuxErr, "aux failed", fe)}
     mode = cfg.get("mode", "hot")
     hotmode = mode.startswith("hot")
     base = SUB if hotmode else 0
@@ -547,6 +560,15 @@ def witness(scn, allowed, got) -> Dict[str, Any]:
     extra = [x for x in got_ix if x not in exp_ix]
     missing = [x for x in exp_ix if x not in got_ix]
     w["extra"], w["missing"] = extra, missing
+    if scn["op"] in ("delay", "delay_abs") and scn["term"] == "E":
+        # the source's error arrived d late (instead of at once), nothing else wrong: every element observed was due before it
+        d = max(scn["par"]["d"], 0)
+        late = scn["tT"] + d
+        ns_ok = all(k == "N" and t <= scn["tT"] for (t, k, _) in (rec[:-1] if rec and rec[-1][1] == "E" else rec))
+        arrived = bool(rec) and rec[-1][1] == "E" and rec[-1][0] == late and rec[-1][2] is V["src_err"]
+        # ... or the subscriber disposed (the run was cut) before the late error could arrive
+        cut = (not rec or rec[-1][1] == "N") and (scn["dsp"] < late)
+        w["error_late_by_d"] = d > 0 and ns_ok and (arrived or cut)
     if scn["op"] in ("take_last_with_time", "skip_last_with_time") and "d" in scn["par"]:
         d = scn["par"]["d"]
         ages = lambda xs: [scn["tT"] - scn["src"][x - 1] for x in xs if x is not None and x <= len(scn["src"])]
@@ -583,7 +605,7 @@ def judge(scn, allowed, cfg):
         return None, (None if None in drifts else drifts[0])
     rec = {"engine": "optime", "op": scn["op"], "scn": scn, "cfg": cfg, "expected": allowed, "observed": describe(got),
            "reason": reasons[0], "reason_kind": reasons[0].split(":")[0], "clock": cfg.get("clock", "test"),
-           "mode": cfg.get("mode")}
+           "mode": cfg.get("mode"), "errprofile": cfg.get("errprofile", "plain")}
     rec.update(witness(scn, allowed, got))
     return rec, None
 
@@ -605,17 +627,18 @@ def variants(scn, hz, tier, seed=0, clocks=("test", "hist")) -> List[Dict[str, A
                "schedarg": g % 4 == 1, "subsched": True, "profile": ("plain", "falsy")[(g // 2) % 2], "salt": g % 6,
                "auxmode": ("hot", "cold", "hot_chain", "cold_chain")[g % 4], "auxfirst": (g // 4) % 2 == 1,
                "specmode": ("cold", "cold_chain")[(g // 3) % 2], "fbmode": ("cold", "cold_chain")[(g // 5) % 2],
-               "alias": g % 5 == 0}
+               "alias": g % 5 == 0, "errprofile": ("plain", "falsy")[(g // 7) % 2]}
         out.append(cfg)
     if "hist" in clocks:
-        # the datetime clock: one or two modes per scenario (all of them in the thorough tier)
-        hm = modes if tier == "thorough" else [modes[h % len(modes)]]
+        # the datetime clock: one script mode per scenario (two different ones in the thorough tier)
+        hm = [modes[h % len(modes)], modes[(h + 1 + h // 7 % (len(modes) - 1)) % len(modes)]] if tier == "thorough" else [modes[h % len(modes)]]
         for n_, mode in enumerate(hm):
             g = h + 3 * n_ + 1
             out.append({"hz": hz, "mode": mode, "clock": "hist", "S": (1, 60)[g % 2], "argform": ("td", "num")[g % 2],
                         "schedarg": g % 4 == 2, "subsched": True, "profile": ("falsy", "plain")[(g // 2) % 2], "salt": g % 6,
                         "auxmode": ("cold", "hot", "cold_chain", "hot_chain")[g % 4], "auxfirst": (g // 4) % 2 == 0,
-                        "specmode": ("cold", "cold_chain")[(g // 3) % 2], "fbmode": "cold", "alias": False})
+                        "specmode": ("cold", "cold_chain")[(g // 3) % 2], "fbmode": "cold", "alias": False,
+                        "errprofile": ("falsy", "plain")[(g // 7) % 2]})
     # two subscribers of the same pipeline
     if tier == "thorough" or h % 4 == 0:
         g = h // 4
